@@ -298,7 +298,7 @@ class C18(Spec):
     prop = "C18"
     coq_targets = ["Props/C18.vo"]
     prop_module = "Props.C18"
-    theorems = ["C18_numbers_match", "C18_decodes_under_schema", "C18_refuted_list_of_null",
+    theorems = ["C18_numbers_match", "C18_decodes_under_schema", "C18_refuted_list_of_null", "C18_extensible_int_fixed",
                 "C18_decodes_under_schema_partial", "C18_schema_valid_partial",
                 "C18_null_field_fixed", "C18_refuted_set_order", "C18_refuted_nested_list_proto",
                 "C18_refuted_choice_list_proto", "C18_refuted_choice_null"]
@@ -310,7 +310,7 @@ class C18(Spec):
                   "components, SETs with explicit tags, lists of lists and list alternatives. Tie: the real generator's .proto text "
                   "is parsed and compared with schema_of, validated by protoc, and the real writer's bytes are decoded by protoc "
                   "--decode and by the extracted Coq decoder and compared with the value.")
-    rule = ("all 29 message types of the zoo x value styles {default-ish, random with boundary integers, big}, every CHOICE "
+    rule = ("all 32 message types of the zoo x value styles {default-ish, random with boundary integers, big}, every CHOICE "
             "alternative, every integer boundary; each case: real bytes decoded by protoc under the real .proto, Coq pb_decode "
             "under schema_of, both compared with the value. non-trivial = at least one byte written; distinct = distinct case line")
     assumptions_text = ["protoc 3.21.12 as the independent decoder (absent -> Coq reference decoder only)", "64-bit usize"]
